@@ -87,7 +87,8 @@ func c04DocCheck(c *C04Doc) string {
 				return fmt.Sprintf("jqawk -o - does not print the program's output followed by the library's JSON\n got: %s", clip(out))
 			}
 			args[1] = "out.json"
-			res2, err := run.CLI(run.CLIOpts{Args: args, Files: map[string][]byte{"in.json": []byte(text)}, KeepDir: true})
+			// (the output file already exists and is longer than the new document)
+			res2, err := run.CLI(run.CLIOpts{Args: args, Files: map[string][]byte{"in.json": []byte(text), "out.json": []byte(strings.Repeat("[\"an earlier, longer document\"]\n", 200))}, KeepDir: true})
 			if err == nil && !res2.TimedOut {
 				data, rerr := readFile(res2.Dir + "/out.json")
 				res2.Cleanup()
